@@ -595,7 +595,14 @@ inline void normalize(const Sch& s, Val& v) {
         if (s.kids[0].k == K::Opt && !v.kids[0].u) v = Val();
       }
       break;
-    case K::Res: if (v.u && !v.kids.empty()) normalize(s.kids[1], v.kids[0]); break;
+    case K::Res:
+      if (v.u && !v.kids.empty()) {
+        normalize(s.kids[1], v.kids[0]);
+        // Result<E, Result<E,U>>: "holds a value which is a Result holding error c" and "holds error c" share the encoding ERR c; the
+        // format cannot tell them apart and a reader yields the outer error (same situation as Optional<Optional<U>>)
+        if (s.kids[1].k == K::Res && !v.kids[0].u) { Val inner = v.kids[0]; v = inner; }
+      }
+      break;
     case K::Var: { int64_t i = (int64_t)v.u; if (i >= 0 && (size_t)i < s.kids.size() && !v.kids.empty()) normalize(s.kids[i], v.kids[0]); break; }
     case K::Tab:
       for (size_t i = 0; i < v.kids.size() && i < s.kids.size(); i++)
